@@ -10,6 +10,8 @@ import (
 	"io"
 	"math/big"
 	"strconv"
+	"sync"
+	"sync/atomic"
 
 	"github.com/btcsuite/btcd/btcec"
 	"github.com/gauss-project/aurorafs/pkg/addressbook"
@@ -69,6 +71,10 @@ func (prop) Gen(r *core.Rand, tier string) []core.Case {
 		}
 		cs = append(cs, core.Case{ID: "fix-netid-every-bit", NT: true, Ops: all})
 	}
+	// two-entry underlay lists (valid record first, then an unauthentic entry naming another overlay, and the other
+	// orders) and concurrent verification of a genuine record next to a forged one with the same overlay and signature
+	fixed("fix-save2-valid-then-forged", "take 9 0 1 0", "save2 0 9 10", "save2 9 0 10", "save2 0 1 10", "mut 1 8 u flip 12", "save2 0 8 10", "save2 8 0 10", "save2 0 0 10")
+	fixed("fix-par-genuine-forged", "mut 0 9 u flip 12", "par 0 9 10", "par 0 1 10", "mut 0 8 u app 1", "par 0 8 10")
 	fixed("fix-own", "mut 0 9 u app 0", "parse 0 11")
 	fixed("fix-underlay-flip", "mut 0 9 u flip 12")
 	fixed("fix-overlay-flip", "mut 0 9 o flip 0")
@@ -354,6 +360,78 @@ func (rn *runner) Step(ctx *core.Ctx, op []string) string {
 		}
 		rn.slots[d] = &slotT{record: record{u: sa.u, o: sb.o, sig: sc.sig}, base: sb.base}
 		return "ok"
+	case (op[0] == "save2" || op[0] == "par") && len(op) == 4:
+		a, ok1 := atoi(op[1])
+		b, ok2 := atoi(op[2])
+		nid, err := strconv.ParseUint(op[3], 10, 64)
+		if !ok1 || !ok2 || err != nil {
+			return "bad-op"
+		}
+		sa, sb := rn.slots[a], rn.slots[b]
+		if sa == nil || sb == nil {
+			return "noslot"
+		}
+		verdict := func(sl *slotT) bool { // the primitives' own verdict on one record (as in parse/ack/save)
+			if _, err := ma.NewMultiaddrBytes(sl.u); err != nil {
+				return false
+			}
+			pk, err := crypto.Recover(sl.sig, signData(sl.u, sl.o, nid))
+			if err != nil || pk == nil {
+				return false
+			}
+			ov, err := crypto.NewOverlayAddress(*pk, nid)
+			return err == nil && bytes.Equal(ov.Bytes(), sl.o)
+		}
+		va, vb := verdict(sa), verdict(sb)
+		if op[0] == "save2" {
+			// one underlay response carrying TWO entries: each entry stands for itself — what is stored under an
+			// overlay is that entry's own record, and only if it is authentic
+			ab := addressbook.New(mockstate.NewStateStore())
+			routetab.VerifSaveUnderlay(ab, nid, noop, []*rpb.UnderlayResp{{Dest: sa.o, Underlay: sa.u, Signature: sa.sig}, {Dest: sb.o, Underlay: sb.u, Signature: sb.sig}})
+			for i, e := range []struct {
+				sl *slotT
+				v  bool
+			}{{sa, va}, {sb, vb}} {
+				if bytes.Equal(sa.o, sb.o) && i == 0 && vb {
+					continue // same overlay twice: the later authentic entry may have replaced the first
+				}
+				got, err := ab.Get(boson.NewAddress(e.sl.o))
+				stored := err == nil && got != nil
+				switch {
+				case stored && !(bytes.Equal(got.Underlay.Bytes(), e.sl.u) && bytes.Equal(got.Signature, e.sl.sig)) && !(bytes.Equal(sa.o, sb.o) && bytes.Equal(got.Underlay.Bytes(), sa.u) && va):
+					ctx.Fail("save2-foreign-record-stored", "entry %d of a two-entry underlay list: the address book holds ANOTHER record under its overlay %x", i, e.sl.o)
+				case stored && !e.v:
+					ctx.Fail("save2-accepted-unauthentic", "entry %d of a two-entry underlay list is stored although it is not authentic", i)
+				case !stored && e.v:
+					ctx.Fail("save2-own-record-rejected", "authentic entry %d of a two-entry underlay list is not stored", i)
+				}
+			}
+			return "done"
+		}
+		// par: the two records are verified concurrently, many times; every single verdict must be the sequential one
+		var wrongA, wrongB int64
+		var wg sync.WaitGroup
+		for g := 0; g < 8; g++ {
+			wg.Add(1)
+			go func(g int) {
+				defer wg.Done()
+				sl, want, cnt := sa, va, &wrongA
+				if g%2 == 1 {
+					sl, want, cnt = sb, vb, &wrongB
+				}
+				for i := 0; i < 400; i++ {
+					_, err := aurora.ParseAddress(sl.u, sl.o, sl.sig, nid)
+					if (err == nil) != want {
+						atomic.AddInt64(cnt, 1)
+					}
+				}
+			}(g)
+		}
+		wg.Wait()
+		if wrongA+wrongB > 0 {
+			ctx.Fail("par-verdict-differs", "concurrent ParseAddress: %d verdicts on record %d and %d on record %d differ from the sequential verdicts (%v, %v)", wrongA, a, wrongB, b, va, vb)
+		}
+		return "done"
 	case (op[0] == "parse" || op[0] == "ack" || op[0] == "save") && len(op) == 3:
 		s, ok1 := atoi(op[1])
 		nid, err := strconv.ParseUint(op[2], 10, 64)
